@@ -39,6 +39,9 @@ CONFIGS = {
     'int64': ['-O1', '-DUSE_FORCE_WIDEMUL_INT64=1', '-DECMULT_WINDOW_SIZE=2', '-DCOMB_BLOCKS=2', '-DCOMB_TEETH=5'],
     'verify': ['-O1', '-DVERIFY', '-DECMULT_WINDOW_SIZE=15', '-DCOMB_BLOCKS=43', '-DCOMB_TEETH=6'],
     'o2': ['-O2', '-DECMULT_WINDOW_SIZE=15', '-DCOMB_BLOCKS=43', '-DCOMB_TEETH=6'],
+    # what ./configure defines when the compiler has the builtins (the cmake build of the pinned suite never does):
+    # compiles the __builtin_popcount branch of secp256k1_count_bits_set and the __builtin_clzll branch of secp256k1_clz64_var
+    'builtins': ['-O1', '-DHAVE_BUILTIN_POPCOUNT=1', '-DHAVE_BUILTIN_CLZLL=1', '-DECMULT_WINDOW_SIZE=15', '-DCOMB_BLOCKS=43', '-DCOMB_TEETH=6'],
     'o1plain': ['-O1', '-DECMULT_WINDOW_SIZE=15', '-DCOMB_BLOCKS=43', '-DCOMB_TEETH=6'],
     'tsan': ['-O1', '-fsanitize=thread', '-DECMULT_WINDOW_SIZE=15', '-DCOMB_BLOCKS=43', '-DCOMB_TEETH=6'],
 }
